@@ -3154,17 +3154,14 @@ CJSON_PUBLIC(cJSON_bool) cJSON_Compare(const cJSON * const a, const cJSON * cons
                 }
             }
 
-            /* doing this twice, once on a and b to prevent true comparison if a subset of b
-             * TODO: Do this the proper way, this is just a fix for now */
+            /* every member of a has an equal member in b; now make sure that b has no member
+             * which a lacks (a must not be a proper subset of b).  The values need not be
+             * compared again: doing so doubled the work on every level of nesting, i.e. the
+             * comparison of objects nested n deep took 2^n steps. */
             cJSON_ArrayForEach(b_element, b)
             {
                 a_element = get_object_item(a, b_element->string, case_sensitive);
                 if (a_element == NULL)
-                {
-                    return false;
-                }
-
-                if (!cJSON_Compare(b_element, a_element, case_sensitive))
                 {
                     return false;
                 }
